@@ -117,4 +117,9 @@ CHECKS = {
         quick=dict(groups=[E("gate", "^TestC16Gate$", 4), E("window", "^TestC16Window$", 4), G("data", "^TestC16Data$", 150, 8)]),
         thorough=dict(groups=[E("gate", "^TestC16Gate$", 4), E("window", "^TestC16Window$", 4), G("data", "^TestC16Data$", 3000, 16)]),
     ),
+    "C03": dict(
+        title="Every mutating contract method is inert without its required witnesses",
+        quick=dict(groups=[E("matrix", "^TestC03Matrix$", 12)]),
+        thorough=dict(groups=[E("matrix", "^TestC03Matrix$", 16)]),
+    ),
 }
